@@ -27,7 +27,8 @@ type C07Case struct {
 }
 
 var c07Once sync.Once
-var c07DataDir string
+var c07DataDir string // real directory (files are created there)
+const c07Data = tmpPlaceholder + "/c07data" // how generated text refers to it
 
 func c07Setup() {
 	c07Once.Do(func() {
@@ -115,9 +116,9 @@ func c07OpArg(t *rapid.T, op string) string {
 	case "pm":
 		return pickBias(t, []string{"a b", "select union", "A|42|C", "abc", "a  b", " a"}, "pm")
 	case "pmFromFile", "pmf":
-		return pickBias(t, []string{filepath.Join(c07DataDir, "words.data"), "words.data", "missing.data", filepath.Join(c07DataDir, "words.data") + " " + filepath.Join(c07DataDir, "ips.data")}, "file")
+		return pickBias(t, []string{c07Data + "/" + "words.data", "words.data", "missing.data", c07Data + "/" + "words.data" + " " + c07Data + "/" + "ips.data"}, "file")
 	case "ipMatchFromFile", "ipMatchF":
-		return pickBias(t, []string{filepath.Join(c07DataDir, "ips.data"), "missing.data"}, "file")
+		return pickBias(t, []string{c07Data + "/" + "ips.data", "missing.data"}, "file")
 	case "pmFromDataset", "ipMatchFromDataset":
 		return pickBias(t, []string{"ds1", "ds2", "missing"}, "ds")
 	case "ipMatch":
@@ -127,11 +128,11 @@ func c07OpArg(t *rapid.T, op string) string {
 	case "validateNid":
 		return rapid.SampledFrom([]string{"cl .{8}", "cl \\d", "us \\d{3}-\\d{2}-\\d{4}", "cl", "xx abc", "us (", "cl ........", "us .*"}).Draw(t, "nid")
 	case "validateSchema":
-		return pickBias(t, []string{filepath.Join(c07DataDir, "schema.json"), "missing.json"}, "schema")
+		return pickBias(t, []string{c07Data + "/" + "schema.json", "missing.json"}, "schema")
 	case "restpath":
 		return rapid.SampledFrom([]string{"/a/{b}/c", "{", "/{a}/{a}", "/{a", "/a/{b}{c}", "/}"}).Draw(t, "restpath")
 	case "inspectFile":
-		return filepath.Join(c07DataDir, "no-such-program")
+		return c07Data + "/" + "no-such-program"
 	case "rbl":
 		return "rbl.invalid."
 	case "eq", "ge", "gt", "le", "lt":
@@ -243,7 +244,7 @@ func c07Action(t *rapid.T, name string) string {
 	case "allow":
 		return pickBias(t, []string{"allow", "allow:phase", "allow:request", "allow:bogus"}, "allow")
 	case "exec":
-		return "exec:" + filepath.Join(c07DataDir, "no-such-program")
+		return "exec:" + c07Data + "/" + "no-such-program"
 	case "expirevar":
 		return "expirevar:" + pickBias(t, []string{"tx.a=10", "tx.a", "ip.x=abc"}, "expirevar")
 	case "initcol":
@@ -316,13 +317,13 @@ func c07Directive(t *rapid.T) string {
 	case "secrule", "secaction", "secdefaultaction", "secdataset":
 		return "" // generated by dedicated branches
 	case "secauditlog":
-		return "SecAuditLog " + filepath.Join(c07DataDir, "audit", "audit.log")
+		return "SecAuditLog " + c07Data + "/" + "audit" + "/" + "audit.log"
 	case "secauditlogstoragedir":
-		return "SecAuditLogStorageDir " + filepath.Join(c07DataDir, "audit")
+		return "SecAuditLogStorageDir " + c07Data + "/" + "audit"
 	case "secdebuglog":
-		return "SecDebugLog " + filepath.Join(c07DataDir, "debug.log")
+		return "SecDebugLog " + c07Data + "/" + "debug.log"
 	case "secuploaddir", "sectmpdir", "secdatadir":
-		return name + " " + filepath.Join(c07DataDir, "upload")
+		return name + " " + c07Data + "/" + "upload"
 	}
 	pool, ok := c07DirArgs[name]
 	if !ok {
@@ -511,7 +512,7 @@ func c07Run(c *C07Case) (accepted bool, evaluated int, fail *Failure) {
 	// every case starts from an empty process-wide pattern cache, so a failure is a function of
 	// the case alone (cross-WAF cache effects are C13's subject)
 	memoize.Reset()
-	conf := strings.Join(c.Lines, "\n")
+	conf := expandTmp(strings.Join(c.Lines, "\n"))
 	var w coraza.WAF
 	var err error
 	if f := guard("NewWAF", func() {
